@@ -131,17 +131,20 @@ Qed.
 Section Correct.
   Variable content_of : modid -> stamp -> content.
   Variable imports : modid -> content -> opts -> list modid.
+  Variable probes : modid -> content -> opts -> list modid.
   Variable check : modid -> content -> opts -> (modid -> option ihash) -> result.
   Variable analyze : list modid -> (modid -> content) -> opts -> (modid -> option ihash) -> modid -> result.
   Variable sccs_of : list (modid * list modid) -> list (list modid).
   Variable reach : list (modid * list modid) -> modid -> modid -> bool.
   Variable sdo_of : list modid -> opts -> nat.
+  Variable ign_of : modid -> stamp -> opts -> bool.
+  Variable blocker : modid -> content -> bool.
 
   (* ---- the analysis contract (monitored on the implementation, not proved) *)
   (* the result for a module depends on the environment only through its import candidates and the
      modules it reports as indirect dependencies *)
   Hypothesis check_reads : forall m c o env env',
-    (forall d, In d (imports m c o) \/ In d (r_indirect (check m c o env)) -> env d = env' d) ->
+    (forall d, In d (imports m c o ++ probes m c o) \/ In d (r_indirect (check m c o env)) -> env d = env' d) ->
     check m c o env = check m c o env'.
   Hypothesis check_indirect_dom : forall m c o env d, In d (r_indirect (check m c o env)) -> env d <> None.
   Hypothesis indirect_noself : forall m c o env, ~ In m (r_indirect (check m c o env)).
@@ -161,35 +164,39 @@ Section Correct.
     sccs_of dm = L1 ++ S :: L2 -> In m S -> reach dm m d = true -> In d (concat L1 ++ S).
 
   Notation find_cache_meta := Model.find_cache_meta.
-  Notation load_meta := (Model.load_meta content_of).
-  Notation cands := (Model.cands content_of imports).
-  Notation direct_deps := (Model.direct_deps content_of imports).
-  Notation supp_deps := (Model.supp_deps content_of imports).
-  Notation old_indirect := (Model.old_indirect content_of).
-  Notation new_indirect := (Model.new_indirect content_of imports).
-  Notation depmap := (Model.depmap content_of imports).
-  Notation is_fresh := (Model.is_fresh content_of sdo_of).
-  Notation dep_hashes_ok := (Model.dep_hashes_ok content_of).
-  Notation trans_ok := (Model.trans_ok content_of reach).
-  Notation scc_fresh := (Model.scc_fresh content_of reach sdo_of).
-  Notation cached_pm := (Model.cached_pm content_of).
+  Notation load_meta := (Model.load_meta content_of ign_of).
+  Notation validate_meta := (Model.validate_meta content_of ign_of).
+  Notation restamp := (Model.restamp content_of ign_of).
+  Notation cands := (Model.cands content_of imports probes ign_of).
+  Notation direct_deps := (Model.direct_deps content_of imports probes ign_of).
+  Notation supp_deps := (Model.supp_deps content_of imports ign_of).
+  Notation old_indirect := (Model.old_indirect content_of ign_of).
+  Notation new_indirect := (Model.new_indirect content_of imports probes ign_of).
+  Notation depmap := (Model.depmap content_of imports probes ign_of).
+  Notation is_fresh := (Model.is_fresh content_of sdo_of ign_of).
+  Notation dep_hashes_ok := (Model.dep_hashes_ok content_of ign_of).
+  Notation trans_ok := (Model.trans_ok content_of reach ign_of).
+  Notation scc_fresh := (Model.scc_fresh content_of reach sdo_of ign_of).
+  Notation cached_pm := (Model.cached_pm content_of ign_of).
+  Notation fresh_pm := (Model.fresh_pm ign_of).
   Notation src_of := (Model.src_of content_of).
-  Notation write_module := (Model.write_module content_of imports sdo_of).
-  Notation process_scc := (Model.process_scc content_of imports analyze reach sdo_of).
-  Notation run := (Model.run content_of imports analyze sccs_of reach sdo_of).
+  Notation write_module := (Model.write_module content_of imports probes sdo_of ign_of).
+  Notation process_scc := (Model.process_scc content_of imports probes analyze reach sdo_of ign_of).
+  Notation run := (Model.run content_of imports probes analyze sccs_of reach sdo_of ign_of).
 
   Definition eo (e : meta) : opts := {| o_snap := m_snap e; o_version := m_version e; o_plugin := m_plugin e |}.
 
   (* an entry was produced by `check` on exactly the inputs its hashes name *)
   Definition EntryOK (m : modid) (e : meta) (x : meta_ex) : Prop :=
-    m_hash e = content_of m (m_stamp e) /\
+    (m_hash e = content_of m (m_stamp e) /\ blocker m (m_hash e) = false) /\
     exists envm, let r := check m (m_hash e) (eo e) envm in
-      m_ihash e = r_iface r /\ x_errors x = r_errors r /\
+      m_ihash e = r_iface r /\ x_errors x = (if m_ignore_all e then [] else r_errors r) /\
       incl (imports m (m_hash e) (eo e)) (m_deps e ++ m_supp e) /\
       incl (r_indirect r) (m_deps e ++ x_deps x) /\
       (forall d h, In (d, h) (combine (m_deps e ++ x_deps x) (m_dep_hashes e ++ x_dep_hashes x)) -> envm d = Some h) /\
       length (m_dep_hashes e ++ x_dep_hashes x) = length (m_deps e ++ x_deps x) /\
-      (forall d, In d (m_supp e) -> envm d = None).
+      (forall d, In d (m_supp e) -> envm d = None) /\
+      (forall d, In d (probes m (m_hash e) (eo e)) -> In d (m_deps e) \/ envm d = None).
 
   Definition CacheOK (c : store) : Prop :=
     (forall m e x, s_meta c m = Some e -> s_ex c m = Some x -> EntryOK m e x) /\
@@ -212,43 +219,62 @@ Section Correct.
   Qed.
 
   Lemma load_spec : forall c o fs m e x, load_meta c o fs m = Some (e, x) ->
-    exists s, lookup fs m = Some s /\ find_cache_meta c o m = Some (e, x) /\ validate_meta content_of c m s e = true.
+    exists s, lookup fs m = Some s /\ find_cache_meta c o m = Some (e, x) /\ validate_meta c o m s e = true.
   Proof.
     unfold Model.load_meta; intros. destruct (lookup fs m) as [s|]; try discriminate.
     destruct (find_cache_meta c o m) as [[e0 x0]|]; try discriminate.
-    destruct (validate_meta content_of c m s e0) eqn:V; try discriminate. inversion H; subst. eauto.
+    destruct (validate_meta c o m s e0) eqn:V; try discriminate. inversion H; subst. eauto.
   Qed.
 
-  Lemma validate_spec : forall c m s e, validate_meta content_of c m s e = true ->
-    m_hash e = content_of m (m_stamp e) -> m_hash e = content_of m s /\ exists d, s_data c m = Some d.
+  Lemma validate_spec : forall c o m s e, validate_meta c o m s e = true ->
+    m_hash e = content_of m (m_stamp e) ->
+    m_hash e = content_of m s /\ (exists d, s_data c m = Some d) /\ (m_ignore_all e = true -> ign_of m s o = true).
   Proof.
-    unfold validate_meta; intros c m s e H Hh.
+    unfold Model.validate_meta; intros c o m s e H Hh.
     apply andb_true_iff in H as [H H3]. apply andb_true_iff in H as [H1 H2].
-    split.
+    split; [|split].
     - apply orb_true_iff in H3 as [H3|H3]; apply Nat.eqb_eq in H3; congruence.
     - destruct (s_data c m); try discriminate; eauto.
+    - intros I. rewrite I in H1. simpl in H1. auto.
   Qed.
 
   (* everything one needs to know about a module whose cached meta was accepted *)
   Lemma load_ok : forall c o fs m e x, CacheOK c -> load_meta c o fs m = Some (e, x) ->
     exists s d, lookup fs m = Some s /\ s_meta c m = Some e /\ s_ex c m = Some x /\ s_data c m = Some d /\
       eo e = o /\ m_hash e = content_of m s /\ d_iface d = m_ihash e /\ EntryOK m e x /\
-      find_cache_meta c o m = Some (e, x).
+      find_cache_meta c o m = Some (e, x) /\ (m_ignore_all e = true -> ign_of m s o = true).
   Proof.
     intros c o fs m e x [C1 C2] H. apply load_spec in H as [s [Hs [Hf Hv]]].
     pose proof (find_spec _ _ _ _ _ Hf) as [Hm [Hx Ho]].
-    pose proof (C1 _ _ _ Hm Hx) as EOK. pose proof EOK as [Hh _].
-    destruct (validate_spec _ _ _ _ Hv Hh) as [Hsrc [d Hd]].
+    pose proof (C1 _ _ _ Hm Hx) as EOK. pose proof EOK as [[Hh _] _].
+    destruct (validate_spec _ _ _ _ _ Hv Hh) as [Hsrc [[d Hd] Hig]].
     exists s, d. assert (d_iface d = m_ihash e) by (eapply C2; eauto).
     split; [auto|]. split; [auto|]. split; [auto|]. split; [auto|]. split; [auto|]. split; [auto|].
-    split; [auto|]. split; auto.
+    split; [auto|]. split; [auto|]. split; auto.
   Qed.
 
-  Lemma imports_in_cands : forall c o fs m s, CacheOK c -> lookup fs m = Some s ->
-    incl (imports m (content_of m s) o) (cands c o fs m s).
+  (* The condition under which reusing the cached dependency lists is right: no probed name that was NOT a module when
+     the entry was written is a module now.  mypy does not check it (finding: `from pkg import name`, then pkg/name.py
+     is added). *)
+  Definition ProbeFresh (c : store) (o : opts) (fs : FS) : Prop :=
+    forall m e x s, load_meta c o fs m = Some (e, x) -> lookup fs m = Some s ->
+      forall d, In d (probes m (content_of m s) o) -> inG fs d = true -> In d (m_deps e).
+
+  Lemma imports_in_cands : forall c o fs m s d, CacheOK c -> ProbeFresh c o fs -> lookup fs m = Some s ->
+    In d (imports m (content_of m s) o ++ probes m (content_of m s) o) -> inG fs d = true -> In d (cands c o fs m s).
   Proof.
-    intros c o fs m s HC Hs. unfold Model.cands. destruct (load_meta c o fs m) as [[e x]|] eqn:L.
-    - destruct (load_ok _ _ _ _ _ _ HC L) as [s' [d [Hs' [_ [_ [_ [Ho [Hh [_ [[_ [envm EOK]] _]]]]]]]]]].
+    intros c o fs m s d HC HP Hs Hd HG. unfold Model.cands. destruct (load_meta c o fs m) as [[e x]|] eqn:L; auto.
+    destruct (load_ok _ _ _ _ _ _ HC L) as [s' [dd [Hs' [_ [_ [_ [Ho [Hh [_ [[_ [envm EOK]] _]]]]]]]]]].
+    rewrite Hs in Hs'; inversion Hs'; subst s'. simpl in EOK. destruct EOK as [_ [_ [Hi _]]].
+    rewrite Hh, Ho in Hi. apply in_app_or in Hd as [Hd|Hd]. apply Hi; auto.
+    apply in_or_app; left. eapply HP; eauto.
+  Qed.
+
+  Lemma hard_in_cands : forall c o fs m s, CacheOK c -> lookup fs m = Some s ->
+    incl (imports m (content_of m s) o) (Model.hard_cands content_of imports ign_of c o fs m s).
+  Proof.
+    intros c o fs m s HC Hs. unfold Model.hard_cands. destruct (load_meta c o fs m) as [[e x]|] eqn:L.
+    - destruct (load_ok _ _ _ _ _ _ HC L) as [s' [dd [Hs' [_ [_ [_ [Ho [Hh [_ [[_ [envm EOK]] _]]]]]]]]]].
       rewrite Hs in Hs'; inversion Hs'; subst s'. simpl in EOK. destruct EOK as [_ [_ [Hi _]]].
       rewrite Hh, Ho in Hi. exact Hi.
     - apply incl_refl.
@@ -276,10 +302,11 @@ Section Correct.
   Definition Good (fs : FS) (o : opts) (env : penv) : Prop :=
     forall m p, lookup env m = Some p -> exists s, lookup fs m = Some s /\
       let r := check m (content_of m s) o (ienv env) in
-      p_iface p = r_iface r /\ p_errors p = r_errors r /\ p_hash p = p_iface p.
+      p_iface p = r_iface r /\ p_errors p = (if ign_of m s o then [] else r_errors r) /\ p_hash p = p_iface p.
 
   Definition Closed (fs : FS) (o : opts) (env : penv) : Prop :=
-    forall m s d, In m (map fst env) -> lookup fs m = Some s -> In d (imports m (content_of m s) o) ->
+    forall m s d, In m (map fst env) -> lookup fs m = Some s ->
+                  In d (imports m (content_of m s) o ++ probes m (content_of m s) o) ->
                   inG fs d = true -> In d (map fst env).
 
   Lemma good_dom : forall fs o env m, Good fs o env -> In m (map fst env) -> inG fs m = true.
@@ -290,7 +317,7 @@ Section Correct.
     Good fs o env -> Closed fs o env -> (forall d, In d (map fst ext) -> inG fs d = true) ->
     lookup env m = Some p -> exists s, lookup fs m = Some s /\
       let r := check m (content_of m s) o (ienv (env ++ ext)) in
-      p_iface p = r_iface r /\ p_errors p = r_errors r /\ p_hash p = p_iface p.
+      p_iface p = r_iface r /\ p_errors p = (if ign_of m s o then [] else r_errors r) /\ p_hash p = p_iface p.
   Proof.
     intros fs o env ext m p HG HC Hext Hp. destruct (HG _ _ Hp) as [s [Hs H]]. exists s; split; auto.
     simpl in *. replace (check m (content_of m s) o (ienv (env ++ ext))) with (check m (content_of m s) o (ienv env)); auto.
@@ -338,26 +365,29 @@ Section Correct.
     apply andb_true_iff in H as [H _]. apply list_eqb_eq in H. apply deps_eq_spec in H. exists e, x; tauto.
   Qed.
 
-  Lemma cached_pm_eq : forall c o fs m e x d, load_meta c o fs m = Some (e, x) -> s_data c m = Some d ->
-    cached_pm c o fs m = {| p_hash := m_ihash e; p_iface := d_iface d; p_errors := x_errors x |}.
-  Proof. intros. unfold Model.cached_pm. rewrite H, H0. auto. Qed.
+  Lemma cached_pm_eq : forall c o fs m e x d s, load_meta c o fs m = Some (e, x) -> s_data c m = Some d ->
+    lookup fs m = Some s ->
+    cached_pm c o fs m = {| p_hash := m_ihash e; p_iface := d_iface d;
+                            p_errors := if ign_of m s o then [] else x_errors x |}.
+  Proof. intros. unfold Model.cached_pm. rewrite H, H0, H1. auto. Qed.
 
   (* ---- a fresh SCC: the replayed results solve the equations *)
   Lemma fresh_good : forall c o fs L1 S L2 env m,
-    CacheOK c -> FSOK fs -> sccs_of (depmap c o fs) = L1 ++ S :: L2 -> map fst env = concat L1 ->
+    CacheOK c -> ProbeFresh c o fs -> FSOK fs -> sccs_of (depmap c o fs) = L1 ++ S :: L2 -> map fst env = concat L1 ->
     Good fs o env -> scc_fresh c o fs (depmap c o fs) env S = true -> In m S ->
     exists s, lookup fs m = Some s /\
       let r := check m (content_of m s) o (ienv (env ++ map (fun x => (x, cached_pm c o fs x)) S)) in
-      p_iface (cached_pm c o fs m) = r_iface r /\ p_errors (cached_pm c o fs m) = r_errors r /\
+      p_iface (cached_pm c o fs m) = r_iface r /\
+      p_errors (cached_pm c o fs m) = (if ign_of m s o then [] else r_errors r) /\
       p_hash (cached_pm c o fs m) = p_iface (cached_pm c o fs m).
   Proof.
-    intros c o fs L1 S L2 env m HC HFS HL Hdom HG HF Hm.
+    intros c o fs L1 S L2 env m HC HP HFS HL Hdom HG HF Hm.
     destruct (step_facts _ _ _ _ _ _ _ HFS HL Hdom) as [SinG [Sdisj [SND Stopo]]].
     destruct (fresh_parts _ _ _ _ _ _ _ HF Hm) as [F1 [F2 F3]].
     destruct (is_fresh_spec _ _ _ _ F1) as [e [x [L [Hall Hsupp]]]].
-    destruct (load_ok _ _ _ _ _ _ HC L) as [s [d [Hs [Hme [Hx [Hd [Ho [Hh [Hdi [[_ [envm EOK]] Hfind]]]]]]]]]].
-    simpl in EOK. destruct EOK as [E1 [E2 [E3 [E4 [E5 [E6 E7]]]]]].
-    exists s; split; auto. rewrite (cached_pm_eq _ _ _ _ _ _ _ L Hd); simpl.
+    destruct (load_ok _ _ _ _ _ _ HC L) as [s [d [Hs [Hme [Hx [Hd [Ho [Hh [Hdi [[_ [envm EOK]] [Hfind Hig]]]]]]]]]]].
+    simpl in EOK. destruct EOK as [E1 [E2 [E3 [E4 [E5 [E6 [E7 E8]]]]]]].
+    exists s; split; auto. rewrite (cached_pm_eq _ _ _ _ _ _ _ _ L Hd Hs); simpl.
     set (env' := env ++ map (fun x0 => (x0, cached_pm c o fs x0)) S).
     rewrite Hh, Ho in *.
     assert (AG : forall d0, In d0 (m_deps e ++ x_deps x) -> envm d0 = ienv env' d0).
@@ -379,34 +409,40 @@ Section Correct.
         rewrite (lookup_map_fn _ (cached_pm c o fs) S d0 H). simpl.
         destruct (fresh_parts _ _ _ _ _ _ _ HF H) as [G1 _].
         destruct (is_fresh_spec _ _ _ _ G1) as [e0 [x0 [L0 _]]].
-        destruct (load_ok _ _ _ _ _ _ HC L0) as [s0 [dd [_ [_ [_ [Hdd [_ [_ [Hddi [_ Hfind0]]]]]]]]]].
-        rewrite Hfind0 in F2. rewrite (cached_pm_eq _ _ _ _ _ _ _ L0 Hdd). simpl. congruence. }
+        destruct (load_ok _ _ _ _ _ _ HC L0) as [s0 [dd [Hs0 [_ [_ [Hdd [_ [_ [Hddi [_ [Hfind0 _]]]]]]]]]]].
+        rewrite Hfind0 in F2. rewrite (cached_pm_eq _ _ _ _ _ _ _ _ L0 Hdd Hs0). simpl. congruence. }
     assert (DOM : forall d0, inG fs d0 = false -> ienv env' d0 = None).
     { intros d0 Hd0. unfold ienv, env'. destruct (lookup (env ++ map (fun x1 => (x1, cached_pm c o fs x1)) S) d0) eqn:Q; auto.
       apply lookup_Some_dom in Q. rewrite map_app, in_app_iff in Q. destruct Q as [Q|Q].
       - apply (good_dom fs o) in Q; auto. congruence.
       - rewrite map_map in Q; simpl in Q. rewrite map_id in Q. apply SinG in Q. congruence. }
     replace (check m (content_of m s) o (ienv env')) with (check m (content_of m s) o envm).
-    { repeat split; congruence. }
+    { split; [congruence|]. split; [|congruence].
+      destruct (ign_of m s o) eqn:IG; auto. rewrite E2.
+      destruct (m_ignore_all e) eqn:MI; auto. specialize (Hig eq_refl). discriminate. }
     apply check_reads. intros d0 [Hd0|Hd0].
-    - apply E3 in Hd0. apply in_app_or in Hd0 as [Hd0|Hd0].
-      + apply AG. apply in_or_app; auto.
-      + rewrite (E7 _ Hd0). symmetry. apply DOM.
-        destruct (inG fs d0) eqn:G; auto. assert (In d0 (found fs (m_supp e))) by (apply found_In; auto).
-        rewrite Hsupp in H. inversion H.
+    - apply in_app_or in Hd0 as [Hd0|Hp].
+      + apply E3 in Hd0. apply in_app_or in Hd0 as [Hd0|Hd0].
+        * apply AG. apply in_or_app; auto.
+        * rewrite (E7 _ Hd0). symmetry. apply DOM.
+          destruct (inG fs d0) eqn:G; auto. assert (In d0 (found fs (m_supp e))) by (apply found_In; auto).
+          rewrite Hsupp in H. inversion H.
+      + destruct (inG fs d0) eqn:G.
+        * apply AG. apply in_or_app; left. eapply HP; eauto.
+        * destruct (E8 _ Hp) as [X|X]. apply AG; apply in_or_app; auto. rewrite X. symmetry. apply DOM; auto.
     - apply AG. apply E4. auto.
   Qed.
   (* ---- a stale SCC: the re-analysed results solve the equations *)
-  Lemma ienv_stale : forall (env : penv) S (R : modid -> result) d,
+  Lemma ienv_stale : forall fs o (env : penv) S (R : modid -> result) d,
     (forall m, In m S -> ~ In m (map fst env)) ->
-    ienv (env ++ map (fun m => (m, fresh_pm (R m))) S) d = extend (ienv env) S (fun x => r_iface (R x)) d.
+    ienv (env ++ map (fun m => (m, fresh_pm fs o R m)) S) d = extend (ienv env) S (fun x => r_iface (R x)) d.
   Proof.
-    intros env S R d Hdisj. unfold ienv, extend. destruct (mem d S) eqn:M.
+    intros fs o env S R d Hdisj. unfold ienv, extend. destruct (mem d S) eqn:M.
     - apply mem_In in M. rewrite lookup_app_r by (apply lookup_None; auto).
-      rewrite (lookup_map_fn _ (fun m => fresh_pm (R m)) S d M). auto.
+      rewrite (lookup_map_fn _ (fun m => fresh_pm fs o R m) S d M). auto.
     - apply mem_false in M. destruct (lookup env d) eqn:Q.
       + erewrite lookup_app_l; eauto.
-      + rewrite lookup_app_r by auto. rewrite (lookup_map_fn_None _ (fun m => fresh_pm (R m)) S d M). auto.
+      + rewrite lookup_app_r by auto. rewrite (lookup_map_fn_None _ (fun m => fresh_pm fs o R m) S d M). auto.
   Qed.
 
   Lemma src_of_eq : forall (fs : FS) m s, lookup fs m = Some s -> src_of fs m = content_of m s.
@@ -416,7 +452,7 @@ Section Correct.
     FSOK fs -> sccs_of (depmap c o fs) = L1 ++ S :: L2 -> map fst env = concat L1 -> In m S ->
     let R := analyze S (src_of fs) o (ienv env) in
     exists s, lookup fs m = Some s /\
-      R m = check m (content_of m s) o (ienv (env ++ map (fun m => (m, fresh_pm (R m))) S)).
+      R m = check m (content_of m s) o (ienv (env ++ map (fun m => (m, fresh_pm fs o R m)) S)).
   Proof.
     intros c o fs L1 S L2 env m HFS HL Hdom Hm R.
     destruct (step_facts _ _ _ _ _ _ _ HFS HL Hdom) as [SinG [Sdisj [SND Stopo]]].
@@ -427,10 +463,10 @@ Section Correct.
 
   (* ---- the invariant of the SCC loop, environment part *)
   Lemma closed_step : forall c o fs L1 S L2 (env : penv) (ext : penv),
-    CacheOK c -> FSOK fs -> sccs_of (depmap c o fs) = L1 ++ S :: L2 -> map fst env = concat L1 ->
+    CacheOK c -> ProbeFresh c o fs -> FSOK fs -> sccs_of (depmap c o fs) = L1 ++ S :: L2 -> map fst env = concat L1 ->
     map fst ext = S -> Closed fs o env -> Closed fs o (env ++ ext).
   Proof.
-    intros c o fs L1 S L2 env ext HC HFS HL Hdom Hext HCl m s d Hm Hs Hd HG.
+    intros c o fs L1 S L2 env ext HC HP HFS HL Hdom Hext HCl m s d Hm Hs Hd HG.
     destruct (step_facts _ _ _ _ _ _ _ HFS HL Hdom) as [SinG [Sdisj [SND Stopo]]].
     rewrite map_app, Hext in *. apply in_app_or in Hm as [Hm|Hm].
     - apply in_or_app; left. eapply HCl; eauto.
@@ -443,7 +479,7 @@ Section Correct.
     Good fs o env -> Closed fs o env ->
     (forall m, In m S -> exists s, lookup fs m = Some s /\
        let r := check m (content_of m s) o (ienv (env ++ map (fun x => (x, f x)) S)) in
-       p_iface (f m) = r_iface r /\ p_errors (f m) = r_errors r /\ p_hash (f m) = p_iface (f m)) ->
+       p_iface (f m) = r_iface r /\ p_errors (f m) = (if ign_of m s o then [] else r_errors r) /\ p_hash (f m) = p_iface (f m)) ->
     Good fs o (env ++ map (fun x => (x, f x)) S).
   Proof.
     intros c o fs L1 S L2 env f HFS HL Hdom HG HCl Hnew m p Hp.
@@ -464,18 +500,19 @@ Section Correct.
   Qed.
 
   Lemma new_entry_ok : forall c o fs (env' : penv) m s (R : modid -> result) dmt,
-    CacheOK c -> Good fs o env' -> Closed fs o env' -> In m (map fst env') -> lookup fs m = Some s ->
-    R m = check m (content_of m s) o (ienv env') ->
+    CacheOK c -> ProbeFresh c o fs -> Good fs o env' -> Closed fs o env' -> In m (map fst env') -> lookup fs m = Some s ->
+    R m = check m (content_of m s) o (ienv env') -> blocker m (content_of m s) = false ->
     EntryOK m
       {| m_stamp := s; m_hash := content_of m s; m_deps := direct_deps c o fs m s; m_supp := supp_deps c o fs m s;
          m_snap := o_snap o; m_version := o_version o; m_plugin := o_plugin o;
          m_sdo := sdo_of (supp_deps c o fs m s) o; m_ihash := r_iface (R m);
-         m_dep_hashes := map (cur_hash c o env') (direct_deps c o fs m s); m_ignore_all := false;
+         m_dep_hashes := map (cur_hash c o env') (direct_deps c o fs m s); m_ignore_all := ign_of m s o;
          m_data_mtime := dmt |}
       {| x_deps := new_indirect c o fs m s (R m);
-         x_dep_hashes := map (cur_hash c o env') (new_indirect c o fs m s (R m)); x_errors := r_errors (R m) |}.
+         x_dep_hashes := map (cur_hash c o env') (new_indirect c o fs m s (R m));
+         x_errors := if ign_of m s o then [] else r_errors (R m) |}.
   Proof.
-    intros c o fs env' m s R dmt HC HG HCl Hm Hs HR.
+    intros c o fs env' m s R dmt HC HP HG HCl Hm Hs HR HNB.
     set (deps := direct_deps c o fs m s). set (supp := supp_deps c o fs m s).
     set (ind := new_indirect c o fs m s (R m)).
     assert (INDG : forall d, In d ind -> inG fs d = true).
@@ -486,7 +523,7 @@ Section Correct.
         eapply ienv_dom; eauto. }
     assert (DEPG : forall d, In d deps -> inG fs d = true).
     { intros d Hd. apply found_In in Hd; tauto. }
-    split; [reflexivity|]. simpl.
+    split; [split; [reflexivity|exact HNB]|]. simpl.
     exists (fun d => match lookup env' d with
                      | Some q => Some (p_iface q)
                      | None => if mem d (deps ++ ind) then Some (cur_hash c o env' d) else None end).
@@ -503,8 +540,10 @@ Section Correct.
       destruct (mem d (deps ++ ind)) eqn:M; auto. apply mem_In in M. apply in_app_or in M as [M|M].
       apply DEPG in M; congruence. apply INDG in M; congruence. }
     rewrite CE. split; [auto|]. split; [auto|]. split.
-    { intros d Hd. apply (imports_in_cands c o fs m s HC Hs) in Hd. unfold Model.direct_deps, Model.supp_deps.
-      apply in_or_app. destruct (inG fs d) eqn:G. left; apply found_In; auto. right; apply notfound_In; auto. }
+    { intros d Hd. unfold Model.direct_deps, Model.supp_deps.
+      apply in_or_app. destruct (inG fs d) eqn:G.
+      - left; apply found_In; split; auto. eapply imports_in_cands; eauto. apply in_or_app; auto.
+      - right; apply notfound_In; split; auto. eapply hard_in_cands; eauto. }
     split.
     { intros d Hd. apply in_or_app.
       assert (DG : inG fs d = true). { rewrite HR in Hd. apply check_indirect_dom in Hd. eapply ienv_dom; eauto. }
@@ -522,11 +561,15 @@ Section Correct.
       - apply mem_In in Hd. rewrite Hd. auto. }
     split.
     { rewrite <- map_app. apply map_length. }
-    { intros d Hd. apply notfound_In in Hd as [_ Hd]. unfold envm.
-      destruct (lookup env' d) eqn:Q.
+    assert (NONE : forall d, inG fs d = false -> envm d = None).
+    { intros d Hd. unfold envm. destruct (lookup env' d) eqn:Q.
       - apply lookup_Some_dom in Q. apply (good_dom fs o) in Q; auto. congruence.
       - destruct (mem d (deps ++ ind)) eqn:M; auto. apply mem_In in M. apply in_app_or in M as [M|M].
         apply DEPG in M; congruence. apply INDG in M; congruence. }
+    split.
+    { intros d Hd. apply notfound_In in Hd as [_ Hd]. apply NONE; auto. }
+    { intros d Hd. destruct (inG fs d) eqn:G; [|right; apply NONE; auto]. left. apply found_In; split; auto.
+      eapply imports_in_cands; eauto. apply in_or_app; auto. }
   Qed.
   (* ---- writing the cache records of one module *)
   Definition same_at (c1 c2 : store) (m : modid) : Prop :=
@@ -538,53 +581,62 @@ Section Correct.
   Proof. intros; unfold upd. apply Nat.eqb_neq in H. rewrite H; auto. Qed.
 
   Lemma write_module_spec : forall c o fs now (env' : penv) (R : modid -> result) c' m s,
-    CacheOK c -> CacheOK c' -> s_data c' m = s_data c m ->
+    CacheOK c -> ProbeFresh c o fs -> CacheOK c' -> s_data c' m = s_data c m ->
     Good fs o env' -> Closed fs o env' -> In m (map fst env') -> lookup fs m = Some s ->
-    R m = check m (content_of m s) o (ienv env') ->
+    R m = check m (content_of m s) o (ienv env') -> blocker m (content_of m s) = false ->
     CacheOK (write_module c o fs now env' R c' m) /\
     (forall m', m' <> m -> same_at (write_module c o fs now env' R c' m) c' m').
   Proof.
-    intros c o fs now env' R c' m s HC HC' Hdata HG HCl Hm Hs HR.
+    intros c o fs now env' R c' m s HC HP HC' Hdata HG HCl Hm Hs HR HNB.
     unfold Model.write_module. rewrite Hs.
     set (old_h := match find_cache_meta c o m with Some (e, _) => m_ihash e | None => 0 end).
     assert (OLD : old_h = r_iface (R m) -> forall d, s_data c m = Some d -> d_iface d = r_iface (R m)).
     { intros E d Hd. unfold old_h in E. destruct (find_cache_meta c o m) as [[e1 x1]|] eqn:F.
       - apply find_spec in F as [F1 _]. destruct HC as [_ C2]. rewrite <- E. eapply C2; eauto.
       - exfalso. rewrite HR in E. symmetry in E. eapply iface_nonzero; eauto. }
+    assert (DEL : CacheOK (del_entry c' m)).
+    { destruct HC' as [C1 C2]. split; simpl.
+      - intros m0 e0 x0 H1 H2. destruct (Nat.eq_dec m0 m) as [->|N].
+        + rewrite upd_same in H1. discriminate.
+        + rewrite upd_other in H1, H2 by auto. eauto.
+      - intros m0 e0 d0 H1 H2. destruct (Nat.eq_dec m0 m) as [->|N].
+        + rewrite upd_same in H1. discriminate.
+        + rewrite upd_other in H1 by auto. eauto. }
     destruct (Nat.eqb old_h (r_iface (R m))) eqn:E.
-    - apply Nat.eqb_eq in E. destruct (s_data c' m) as [d|] eqn:D.
+    - apply Nat.eqb_eq in E. simpl. destruct (s_data c' m) as [d|] eqn:D.
       + split.
         * destruct HC' as [C1 C2]. split; simpl.
           { intros m0 e0 x0 H1 H2. destruct (Nat.eq_dec m0 m) as [->|N].
             - rewrite upd_same in H1, H2. inversion H1; inversion H2; subst. eapply new_entry_ok; eauto.
-            - rewrite upd_other in H1, H2 by auto. eauto. }
+            - repeat (rewrite upd_other in H1 by auto); repeat (rewrite upd_other in H2 by auto). eauto. }
           { intros m0 e0 d0 H1 H2. destruct (Nat.eq_dec m0 m) as [->|N].
             - rewrite upd_same in H1. inversion H1; subst; simpl. apply OLD; auto. congruence.
-            - rewrite upd_other in H1 by auto. eauto. }
+            - repeat (rewrite upd_other in H1 by auto). eauto. }
         * intros m' N. unfold same_at; simpl. rewrite !upd_other by auto. auto.
-      + split; auto. intros; unfold same_at; auto.
+      + split; auto. intros m' N; unfold same_at; simpl. rewrite !upd_other by auto. auto.
     - simpl. rewrite upd_same. split.
       + destruct HC' as [C1 C2]. split; simpl.
         { intros m0 e0 x0 H1 H2. destruct (Nat.eq_dec m0 m) as [->|N].
           - rewrite upd_same in H1, H2. inversion H1; inversion H2; subst. eapply new_entry_ok; eauto.
-          - rewrite upd_other in H1, H2 by auto. eauto. }
+          - repeat (rewrite upd_other in H1 by auto); repeat (rewrite upd_other in H2 by auto). eauto. }
         { intros m0 e0 d0 H1 H2. destruct (Nat.eq_dec m0 m) as [->|N].
           - rewrite upd_same in H1, H2. inversion H1; inversion H2; subst; simpl. auto.
-          - rewrite upd_other in H1, H2 by auto. eauto. }
+          - repeat (rewrite upd_other in H1 by auto); repeat (rewrite upd_other in H2 by auto). eauto. }
       + intros m' N. unfold same_at; simpl. rewrite !upd_other by auto. auto.
   Qed.
 
   Lemma write_fold_spec : forall c o fs now (env' : penv) (R : modid -> result) S c',
-    CacheOK c -> CacheOK c' -> NoDup S -> (forall m, In m S -> s_data c' m = s_data c m) ->
+    CacheOK c -> ProbeFresh c o fs -> CacheOK c' -> NoDup S -> (forall m, In m S -> s_data c' m = s_data c m) ->
     Good fs o env' -> Closed fs o env' ->
-    (forall m, In m S -> In m (map fst env') /\ exists s, lookup fs m = Some s /\ R m = check m (content_of m s) o (ienv env')) ->
+    (forall m, In m S -> In m (map fst env') /\ exists s, lookup fs m = Some s /\ R m = check m (content_of m s) o (ienv env') /\
+                                                          blocker m (content_of m s) = false) ->
     CacheOK (fold_left (write_module c o fs now env' R) S c') /\
     (forall m', ~ In m' S -> same_at (fold_left (write_module c o fs now env' R) S c') c' m').
   Proof.
-    intros c o fs now env' R S. induction S as [|m S IH]; simpl; intros c' HC HC' ND Hd HG HCl HS.
+    intros c o fs now env' R S. induction S as [|m S IH]; simpl; intros c' HC HP HC' ND Hd HG HCl HS.
     - split; auto. intros; unfold same_at; auto.
-    - inversion ND; subst. destruct (HS m (or_introl eq_refl)) as [Hm [s [Hs HR]]].
-      destruct (write_module_spec c o fs now env' R c' m s HC HC' (Hd _ (or_introl eq_refl)) HG HCl Hm Hs HR) as [W1 W2].
+    - inversion ND; subst. destruct (HS m (or_introl eq_refl)) as [Hm [s [Hs [HR HNB]]]].
+      destruct (write_module_spec c o fs now env' R c' m s HC HP HC' (Hd _ (or_introl eq_refl)) HG HCl Hm Hs HR HNB) as [W1 W2].
       destruct (IH (write_module c o fs now env' R c' m)) as [I1 I2]; auto.
       + intros m0 Hm0. assert (m0 <> m) by (intro; subst; auto). destruct (W2 _ H) as [_ [_ W]]. rewrite W. auto.
       + split; auto. intros m' Hm'. assert (m' <> m) by (intro; subst; auto).
@@ -596,32 +648,34 @@ Section Correct.
     map fst (fst st) = concat done /\ Good fs o (fst st) /\ Closed fs o (fst st) /\ CacheOK (snd st) /\
     (forall m, ~ In m (concat done) -> s_data (snd st) m = s_data c m).
 
+  Definition NB (fs : FS) : Prop := forall m s, lookup fs m = Some s -> blocker m (content_of m s) = false.
+
   Lemma process_scc_inv : forall c o fs now L1 S L2 st,
-    CacheOK c -> FSOK fs -> sccs_of (depmap c o fs) = L1 ++ S :: L2 ->
+    CacheOK c -> ProbeFresh c o fs -> FSOK fs -> NB fs -> sccs_of (depmap c o fs) = L1 ++ S :: L2 ->
     Inv c fs o L1 st -> Inv c fs o (L1 ++ [S]) (process_scc c o fs now (depmap c o fs) st S).
   Proof.
-    intros c o fs now L1 S L2 [env c'] HC HFS HL [Hdom [HG [HCl [HC' Hfr]]]]. simpl in *.
+    intros c o fs now L1 S L2 [env c'] HC HP HFS HNB HL [Hdom [HG [HCl [HC' Hfr]]]]. simpl in *.
     destruct (step_facts _ _ _ _ _ _ _ HFS HL Hdom) as [SinG [Sdisj [SND Stopo]]].
     assert (CC : concat (L1 ++ [S]) = concat L1 ++ S) by (rewrite concat_app; simpl; rewrite app_nil_r; auto).
     unfold Model.process_scc. destruct (scc_fresh c o fs (depmap c o fs) env S) eqn:F.
     - unfold Inv; simpl. rewrite CC. split.
       { rewrite map_app, map_map; simpl. rewrite map_id. congruence. }
       split. { eapply good_step; eauto. intros m Hm. eapply fresh_good; eauto. }
-      split. { apply (closed_step c o fs L1 S L2 env _ HC HFS HL Hdom); auto. rewrite map_map; simpl. apply map_id. }
+      split. { apply (closed_step c o fs L1 S L2 env _ HC HP HFS HL Hdom); auto. rewrite map_map; simpl. apply map_id. }
       split; auto. intros m Hm. apply Hfr. intro; apply Hm; apply in_or_app; auto.
     - set (R := analyze S (src_of fs) o (ienv env)).
-      set (env' := env ++ map (fun m => (m, fresh_pm (R m))) S).
+      set (env' := env ++ map (fun m => (m, fresh_pm fs o R m)) S).
       assert (G' : Good fs o env').
       { eapply good_step; eauto. intros m Hm.
         destruct (stale_good c o fs L1 S L2 env m HFS HL Hdom Hm) as [s [Hs HR]]. fold R in HR.
-        exists s; split; auto. simpl. rewrite <- HR. auto. }
+        exists s; split; auto. simpl. unfold Model.ign_now. rewrite Hs, <- HR. auto. }
       assert (C' : Closed fs o env').
-      { apply (closed_step c o fs L1 S L2 env _ HC HFS HL Hdom); auto. rewrite map_map; simpl. apply map_id. }
-      destruct (write_fold_spec c o fs now env' R S c' HC HC' SND) as [W1 W2]; auto.
+      { apply (closed_step c o fs L1 S L2 env _ HC HP HFS HL Hdom); auto. rewrite map_map; simpl. apply map_id. }
+      destruct (write_fold_spec c o fs now env' R S c' HC HP HC' SND) as [W1 W2]; auto.
       { intros m Hm. apply Hfr. rewrite <- Hdom. auto. }
       { intros m Hm. split.
         - unfold env'. rewrite map_app, map_map; simpl. rewrite map_id. apply in_or_app; auto.
-        - destruct (stale_good c o fs L1 S L2 env m HFS HL Hdom Hm) as [s [Hs HR]]. eauto. }
+        - destruct (stale_good c o fs L1 S L2 env m HFS HL Hdom Hm) as [s [Hs HR]]. exists s. split; auto. }
       unfold Inv; simpl. rewrite CC. split.
       { unfold env'. rewrite map_app, map_map; simpl. rewrite map_id. congruence. }
       split; auto. split; auto. split; auto.
@@ -630,39 +684,62 @@ Section Correct.
   Qed.
 
   Lemma process_all_inv : forall c o fs now L2 L1 st,
-    CacheOK c -> FSOK fs -> sccs_of (depmap c o fs) = L1 ++ L2 -> Inv c fs o L1 st ->
+    CacheOK c -> ProbeFresh c o fs -> FSOK fs -> NB fs -> sccs_of (depmap c o fs) = L1 ++ L2 -> Inv c fs o L1 st ->
     Inv c fs o (L1 ++ L2) (fold_left (process_scc c o fs now (depmap c o fs)) L2 st).
   Proof.
-    intros c o fs now L2. induction L2 as [|S L2 IH]; simpl; intros L1 st HC HFS HL HI.
+    intros c o fs now L2. induction L2 as [|S L2 IH]; simpl; intros L1 st HC HP HFS HNB HL HI.
     - rewrite app_nil_r; auto.
     - replace (L1 ++ S :: L2) with ((L1 ++ [S]) ++ L2) in * by (rewrite <- app_assoc; auto).
       apply IH; auto. eapply process_scc_inv; eauto. rewrite <- app_assoc in HL. exact HL.
   Qed.
 
-  Lemma run_inv : forall c fs o now, CacheOK c -> FSOK fs ->
+  (* ---- the mtime-update write of validate_meta keeps the invariant *)
+  Lemma restamp_ok : forall c o fs, CacheOK c -> CacheOK (restamp c o fs).
+  Proof.
+    intros c o fs HC. pose proof HC as [C1 C2]. split; simpl.
+    - intros m e' x H1 H2.
+      destruct (load_meta c o fs m) as [[e x0]|] eqn:L; [|eauto].
+      destruct (lookup fs m) as [s|] eqn:Hs; [|eauto].
+      destruct (Nat.eqb (m_stamp e) s) eqn:E; [eauto|].
+      destruct (load_ok _ _ _ _ _ _ HC L) as [s' [d [Hs' [Hme [Hx [_ [Ho [Hh [_ [EOK _]]]]]]]]]].
+      rewrite Hs in Hs'; inversion Hs'; subst s'. rewrite Hx in H2; inversion H2; subst x0.
+      inversion H1; subst e'; clear H1. destruct EOK as [[G1 G2] [envm G3]]. subst o.
+      split; [split; simpl; auto|]. exists envm. exact G3.
+    - intros m e' d H1 H2.
+      destruct (load_meta c o fs m) as [[e x0]|] eqn:L; [|eauto].
+      destruct (lookup fs m) as [s|] eqn:Hs; [|eauto].
+      destruct (Nat.eqb (m_stamp e) s) eqn:E; [eauto|].
+      destruct (load_ok _ _ _ _ _ _ HC L) as [s' [d' [_ [Hme _]]]].
+      inversion H1; subst e'; simpl. eauto.
+  Qed.
+
+  Lemma run_inv : forall c fs o now, CacheOK c -> ProbeFresh c o fs -> FSOK fs -> NB fs ->
     Inv c fs o (sccs_of (depmap c o fs)) (run c fs o now).
   Proof.
-    intros. unfold Model.run. apply (process_all_inv c o fs now (sccs_of (depmap c o fs)) [] ([], c)); auto.
+    intros. unfold Model.run.
+    apply (process_all_inv c o fs now (sccs_of (depmap c o fs)) [] ([], restamp c o fs)); auto.
     unfold Inv; simpl. split; [reflexivity|]. split; [intros m p Hp; discriminate|].
-    split; [intros m s d Hm; inversion Hm|]. split; auto.
+    split; [intros m s d Hm; inversion Hm|]. split; auto. apply restamp_ok; auto.
   Qed.
+
   (* ---- what a run computes: a solution of the per-module equations over the whole program *)
   Definition genv (fs : FS) (I : modid -> ihash) : modid -> option ihash :=
     fun d => if inG fs d then Some (I d) else None.
   Definition Sol (fs : FS) (o : opts) (I : modid -> ihash) (E : modid -> list diag) : Prop :=
     forall m s, lookup fs m = Some s ->
-      let r := check m (content_of m s) o (genv fs I) in I m = r_iface r /\ E m = r_errors r.
+      let r := check m (content_of m s) o (genv fs I) in
+      I m = r_iface r /\ E m = (if ign_of m s o then [] else r_errors r).
 
   Definition I_of (env : penv) (m : modid) : ihash := match lookup env m with Some p => p_iface p | None => 0 end.
   Definition E_of (env : penv) (m : modid) : list diag := match lookup env m with Some p => p_errors p | None => [] end.
 
-  Lemma run_sol : forall c fs o now, CacheOK c -> FSOK fs ->
+  Lemma run_sol : forall c fs o now, CacheOK c -> ProbeFresh c o fs -> FSOK fs -> NB fs ->
     let env := fst (run c fs o now) in
     (forall m, inG fs m = true -> exists p, lookup env m = Some p) /\ Sol fs o (I_of env) (E_of env) /\
     CacheOK (snd (run c fs o now)).
   Proof.
-    intros c fs o now HC HFS env.
-    destruct (run_inv c fs o now HC HFS) as [Hdom [HG [_ [HC' _]]]]. fold env in Hdom, HG.
+    intros c fs o now HC HP HFS HNB env.
+    destruct (run_inv c fs o now HC HP HFS HNB) as [Hdom [HG [_ [HC' _]]]]. fold env in Hdom, HG.
     destruct (sccs_spec _ (depmap_ok c o fs HFS)) as [_ [Hcov _]].
     assert (DOM : forall m, inG fs m = true -> exists p, lookup env m = Some p).
     { intros m Hm. apply lookup_dom. rewrite Hdom. apply Hcov. rewrite depmap_dom. apply inG_In; auto. }
@@ -676,55 +753,164 @@ Section Correct.
     - destruct (lookup env d) eqn:Q; auto. apply lookup_Some_dom in Q. apply (good_dom fs o) in Q; auto. congruence.
   Qed.
 
-  (* ---- uniqueness of solutions: the last piece of the analysis contract (a theorem for acyclic import graphs,
-          an assumption for import cycles) *)
-  Hypothesis sol_unique : forall fs o I E I' E', FSOK fs -> Sol fs o I E -> Sol fs o I' E' ->
-    forall m, inG fs m = true -> I m = I' m /\ E m = E' m.
+  (* ---- uniqueness of the solution.  What has to be ASSUMED for import cycles is LevelUnique: with the SCC index as
+     rank, "two solutions of the program that agree on all lower SCCs agree on this SCC" (the SCC is the unit).
+     For programs whose imports and reported indirect dependencies are well-founded it is a THEOREM (acyclic_unique). *)
+  Definition Unique (fs : FS) (o : opts) : Prop :=
+    forall I E I' E', Sol fs o I E -> Sol fs o I' E' -> forall m, inG fs m = true -> I m = I' m /\ E m = E' m.
+
+  Definition LevelUnique (fs : FS) (o : opts) (rank : modid -> nat) : Prop :=
+    forall k I E I' E', Sol fs o I E -> Sol fs o I' E' ->
+      (forall d, inG fs d = true -> rank d < k -> I d = I' d) ->
+      forall m, inG fs m = true -> rank m = k -> I m = I' m.
+
+  Definition Acyclic (fs : FS) (o : opts) (rank : modid -> nat) : Prop :=
+    forall m s d env, lookup fs m = Some s -> inG fs d = true ->
+      In d (imports m (content_of m s) o ++ probes m (content_of m s) o) \/
+      In d (r_indirect (check m (content_of m s) o env)) ->
+      rank d < rank m.
+
+  Lemma level_unique_unique : forall fs o rank, LevelUnique fs o rank -> Unique fs o.
+  Proof.
+    intros fs o rank LU I E I' E' S1 S2.
+    assert (A : forall k m, inG fs m = true -> rank m = k -> I m = I' m).
+    { induction k as [k IH] using lt_wf_ind. intros m G Rk.
+      eapply (LU k I E I' E'); eauto; intros d Gd Hd; eapply IH; eauto. }
+    intros m G. split. eapply A; eauto.
+    apply inG_lookup in G as [s Hs]. destruct (S1 _ _ Hs) as [_ A2]. destruct (S2 _ _ Hs) as [_ B2]. simpl in *.
+    rewrite A2, B2.
+    replace (check m (content_of m s) o (genv fs I')) with (check m (content_of m s) o (genv fs I)); auto.
+    apply check_reads. intros d _. unfold genv. destruct (inG fs d) eqn:Gd; auto. f_equal. eapply A; eauto.
+  Qed.
+
+  Lemma acyclic_level_unique : forall fs o rank, Acyclic fs o rank -> LevelUnique fs o rank.
+  Proof.
+    intros fs o rank AC k I E I' E' S1 S2 Hlow m G Rk.
+    apply inG_lookup in G as [s Hs]. destruct (S1 _ _ Hs) as [A1 _]. destruct (S2 _ _ Hs) as [B1 _]. simpl in *.
+    rewrite A1, B1. f_equal. apply check_reads. intros d Hd. unfold genv.
+    destruct (inG fs d) eqn:Gd; auto. f_equal. apply Hlow; auto. rewrite <- Rk. eapply AC; eauto.
+  Qed.
+
+  Lemma acyclic_unique : forall fs o rank, Acyclic fs o rank -> Unique fs o.
+  Proof. intros. eapply level_unique_unique. eapply acyclic_level_unique; eauto. Qed.
 
   Lemma existsb_ext_in : forall A (f g : A -> bool) l, (forall a, In a l -> f a = g a) -> existsb f l = existsb g l.
   Proof. induction l; simpl; intros; auto. rewrite H by auto. f_equal; auto. Qed.
 
-  Lemma runs_agree : forall c c' fs o n n', CacheOK c -> CacheOK c' -> FSOK fs ->
-    output fs (run c fs o n) = output fs (run c' fs o n').
+  Lemma ProbeFresh_empty : forall o fs, ProbeFresh empty_store o fs.
   Proof.
-    intros c c' fs o n n' HC HC' HFS.
-    destruct (run_sol c fs o n HC HFS) as [D1 [S1 _]]. destruct (run_sol c' fs o n' HC' HFS) as [D2 [S2 _]].
+    intros o fs m e x s L. unfold Model.load_meta, Model.find_cache_meta in L. simpl in L.
+    destruct (lookup fs m); discriminate.
+  Qed.
+
+  Lemma ProbeFresh_noprobes : (forall m c o, probes m c o = []) -> forall c o fs, ProbeFresh c o fs.
+  Proof. intros H c o fs m e x s _ _ d Hd. rewrite H in Hd. inversion Hd. Qed.
+
+  Lemma runs_agree : forall c c' fs o n n', CacheOK c -> ProbeFresh c o fs -> CacheOK c' -> ProbeFresh c' o fs ->
+    FSOK fs -> NB fs -> Unique fs o ->
+    let env := fst (run c fs o n) in let env' := fst (run c' fs o n') in
+    (report fs env, status fs env) = (report fs env', status fs env').
+  Proof.
+    intros c c' fs o n n' HC HP HC' HP' HFS HNB HU env env'.
+    destruct (run_sol c fs o n HC HP HFS HNB) as [D1 [S1 _]]. destruct (run_sol c' fs o n' HC' HP' HFS HNB) as [D2 [S2 _]].
+    fold env in D1, S1. fold env' in D2, S2.
     assert (EQ : forall ms, In ms fs ->
-              exists p p', lookup (fst (run c fs o n)) (fst ms) = Some p /\ lookup (fst (run c' fs o n')) (fst ms) = Some p' /\
-                           p_errors p = p_errors p').
+              exists p p', lookup env (fst ms) = Some p /\ lookup env' (fst ms) = Some p' /\ p_errors p = p_errors p').
     { intros [m s] Hin; simpl. assert (G : inG fs m = true). { apply inG_In. apply in_map_iff. exists (m, s); auto. }
       destruct (D1 m G) as [p Hp]. destruct (D2 m G) as [p' Hp']. exists p, p'. repeat split; auto.
-      destruct (sol_unique fs o _ _ _ _ HFS S1 S2 m G) as [_ HE]. unfold E_of in HE. rewrite Hp, Hp' in HE. auto. }
-    unfold output, report, status. f_equal.
+      destruct (HU _ _ _ _ S1 S2 m G) as [_ HE]. unfold E_of in HE. rewrite Hp, Hp' in HE. auto. }
+    unfold report, status. f_equal.
     - apply map_ext_in. intros ms Hin. destruct (EQ ms Hin) as [p [p' [H1 [H2 H3]]]]. rewrite H1, H2. simpl. congruence.
     - apply existsb_ext_in. intros ms Hin. destruct (EQ ms Hin) as [p [p' [H1 [H2 H3]]]]. rewrite H1, H2. congruence.
   Qed.
 
-  Notation warm := (Model.warm content_of imports analyze sccs_of reach sdo_of).
-  Notation cold := (Model.cold content_of imports analyze sccs_of reach sdo_of).
-  Notation runs := (Model.runs content_of imports analyze sccs_of reach sdo_of).
+  (* ---- blocking errors *)
+  Notation blocked := (Model.blocked content_of ign_of blocker).
+  Notation run_b := (Model.run_b content_of imports probes analyze sccs_of reach sdo_of ign_of blocker).
+  Notation warm := (Model.warm content_of imports probes analyze sccs_of reach sdo_of ign_of blocker).
+  Notation cold := (Model.cold content_of imports probes analyze sccs_of reach sdo_of ign_of blocker).
+  Notation runs := (Model.runs content_of imports probes analyze sccs_of reach sdo_of ign_of blocker).
 
-  Lemma run_preserves_CacheOK : forall c fs o now, CacheOK c -> FSOK fs -> CacheOK (snd (warm c fs o now)).
-  Proof. intros. apply run_sol; auto. Qed.
-
-  Lemma warm_eq_cold : forall c fs o n n', CacheOK c -> FSOK fs ->
-    output fs (warm c fs o n) = output fs (cold fs o n').
-  Proof. intros. apply runs_agree; auto. apply CacheOK_empty. Qed.
-
-  Lemma runs_CacheOK : forall h c k, CacheOK c -> (forall fs o, In (fs, o) h -> FSOK fs) -> CacheOK (runs c k h).
+  Lemma In_lookup : forall (fs : FS) m s, FSOK fs -> In (m, s) fs -> lookup fs m = Some s.
   Proof.
-    induction h as [|[fs o] t IH]; simpl; intros; auto.
-    apply IH. apply run_preserves_CacheOK; eauto. eauto.
+    unfold FSOK. induction fs as [|[k v] t]; simpl; intros; try tauto. inversion H; subst.
+    destruct H0 as [H0|H0].
+    - inversion H0; subst. rewrite Nat.eqb_refl; auto.
+    - destruct (Nat.eqb m k) eqn:E; auto. apply Nat.eqb_eq in E; subst. exfalso. apply H3.
+      apply in_map_iff. exists (k, s); auto.
   Qed.
 
-  (* all finite histories: whatever sequence of file-system states (and options) mypy was run on before,
-     starting from any valid cache (in particular the empty one), the next warm run reports what a cold run reports *)
+  (* a run is aborted iff some file of the program has a blocking error - whatever the cache *)
+  Lemma blocked_spec : forall c o fs, CacheOK c -> FSOK fs ->
+    (blocked c o fs = true <-> exists m s, In (m, s) fs /\ blocker m (content_of m s) = true).
+  Proof.
+    intros c o fs HC HFS. unfold Model.blocked. rewrite existsb_exists. split.
+    - intros [[m s] [Hin H]]. simpl in H. exists m, s. split; auto.
+      destruct (load_meta c o fs m) as [[e x]|]; try discriminate; auto.
+    - intros [m [s [Hin Hb]]]. exists (m, s). split; auto. simpl.
+      destruct (load_meta c o fs m) as [[e x]|] eqn:L; auto. exfalso.
+      destruct (load_ok _ _ _ _ _ _ HC L) as [s' [d [Hs' [_ [_ [_ [_ [Hh [_ [[[_ G2] _] _]]]]]]]]]].
+      rewrite (In_lookup _ _ _ HFS Hin) in Hs'. inversion Hs'; subst s'. congruence.
+  Qed.
+
+  Lemma not_blocked_NB : forall c o fs, CacheOK c -> FSOK fs -> blocked c o fs = false -> NB fs.
+  Proof.
+    intros c o fs HC HFS Hb m s Hs. destruct (blocker m (content_of m s)) eqn:B; auto.
+    assert (blocked c o fs = true); [|congruence].
+    apply blocked_spec; auto. exists m, s. split; auto. apply lookup_In; auto.
+  Qed.
+
+  Lemma blocked_same : forall c c' o fs, CacheOK c -> CacheOK c' -> FSOK fs -> blocked c o fs = blocked c' o fs.
+  Proof.
+    intros. destruct (blocked c o fs) eqn:B1; destruct (blocked c' o fs) eqn:B2; auto.
+    - apply blocked_spec in B1; auto. apply (proj2 (blocked_spec c' o fs H0 H1)) in B1. congruence.
+    - apply blocked_spec in B2; auto. apply (proj2 (blocked_spec c o fs H H1)) in B2. congruence.
+  Qed.
+
+  Lemma run_preserves_CacheOK : forall c fs o now, CacheOK c -> ProbeFresh c o fs -> FSOK fs ->
+    CacheOK (snd (warm c fs o now)).
+  Proof.
+    intros. unfold Model.warm, Model.run_b. destruct (blocked c o fs) eqn:B; simpl.
+    - apply restamp_ok; auto.
+    - apply run_sol; auto. eapply not_blocked_NB; eauto.
+  Qed.
+
+  Lemma warm_eq_cold : forall c fs o n n', CacheOK c -> ProbeFresh c o fs -> FSOK fs -> Unique fs o ->
+    output fs (warm c fs o n) = output fs (cold fs o n').
+  Proof.
+    intros c fs o n n' HC HP HFS HU. unfold Model.warm, Model.cold, Model.run_b.
+    rewrite (blocked_same c empty_store o fs HC CacheOK_empty HFS).
+    destruct (blocked empty_store o fs) eqn:B; unfold output; simpl; auto.
+    assert (NBfs : NB fs) by (eapply (not_blocked_NB empty_store); eauto; apply CacheOK_empty).
+    f_equal. apply runs_agree; auto. apply CacheOK_empty. apply ProbeFresh_empty.
+  Qed.
+
+  (* the side condition along a history: at every run the cached dependency lists that are reused are still right *)
+  Fixpoint HistOK (c : store) (k : nat) (h : list (FS * opts)) : Prop :=
+    match h with
+    | [] => True
+    | (fs, o) :: t => FSOK fs /\ ProbeFresh c o fs /\ HistOK (snd (warm c fs o k)) (Datatypes.S k) t
+    end.
+
+  Lemma HistOK_noprobes : (forall m c o, probes m c o = []) ->
+    forall h c k, (forall fs o, In (fs, o) h -> FSOK fs) -> HistOK c k h.
+  Proof.
+    intros NP. induction h as [|[fs o] t IH]; simpl; intros; auto.
+    split; [eauto|]. split; [apply ProbeFresh_noprobes; auto|]. apply IH; eauto.
+  Qed.
+
+  Lemma runs_CacheOK : forall h c k, CacheOK c -> HistOK c k h -> CacheOK (runs c k h).
+  Proof.
+    induction h as [|[fs o] t IH]; simpl; intros c k HC HH; auto.
+    destruct HH as [H1 [H2 H3]]. apply IH; auto. apply run_preserves_CacheOK; auto.
+  Qed.
+
+  (* all finite histories: whatever sequence of file-system states (and options) mypy was run on before (including runs
+     aborted by blocking errors), starting from any valid cache, the next warm run reports what a cold run reports *)
   Lemma history_warm_eq_cold : forall h c k fs o n n',
-    CacheOK c -> (forall fs' o', In (fs', o') h -> FSOK fs') -> FSOK fs ->
+    CacheOK c -> HistOK c k h -> ProbeFresh (runs c k h) o fs -> FSOK fs -> Unique fs o ->
     output fs (warm (runs c k h) fs o n) = output fs (cold fs o n').
   Proof. intros. apply warm_eq_cold; auto. apply runs_CacheOK; auto. Qed.
-
-  (* the stale set is empty when nothing changed ... *)
 End Correct.
 
 (* ------------------------------------------------------------------ packaged contract and final statements *)
@@ -733,25 +919,25 @@ From C02 Require Statement.
 Section Packaged.
   Variable content_of : modid -> stamp -> content.
   Variable imports : modid -> content -> opts -> list modid.
+  Variable probes : modid -> content -> opts -> list modid.
   Variable check : modid -> content -> opts -> (modid -> option ihash) -> result.
   Variable analyze : list modid -> (modid -> content) -> opts -> (modid -> option ihash) -> modid -> result.
   Variable sccs_of : list (modid * list modid) -> list (list modid).
   Variable reach : list (modid * list modid) -> modid -> modid -> bool.
   Variable sdo_of : list modid -> opts -> nat.
+  Variable ign_of : modid -> stamp -> opts -> bool.
+  Variable blocker : modid -> content -> bool.
 
-  (* The analysis contract: "contract, monitored not proved". *)
+  (* The analysis contract: "contract, monitored not proved".  No uniqueness assumption in it. *)
   Record AnalysisContract : Prop := {
     ac_reads : forall m c o env env',
-      (forall d, In d (imports m c o) \/ In d (r_indirect (check m c o env)) -> env d = env' d) ->
+      (forall d, In d (imports m c o ++ probes m c o) \/ In d (r_indirect (check m c o env)) -> env d = env' d) ->
       check m c o env = check m c o env';
     ac_indirect_dom : forall m c o env d, In d (r_indirect (check m c o env)) -> env d <> None;
     ac_indirect_noself : forall m c o env, ~ In m (r_indirect (check m c o env));
     ac_iface_nonzero : forall m c o env, r_iface (check m c o env) <> 0;
     ac_analyze_local : forall S src o env m, In m S ->
-      analyze S src o env m = check m (src m) o (extend env S (fun x => r_iface (analyze S src o env x)));
-    ac_unique : forall fs o I E I' E', FSOK fs ->
-      Sol content_of check fs o I E -> Sol content_of check fs o I' E' ->
-      forall m, inG fs m = true -> I m = I' m /\ E m = E' m }.
+      analyze S src o env m = check m (src m) o (extend env S (fun x => r_iface (analyze S src o env x))) }.
 
   (* The graph-algorithm contract (SCCs listed in dependency order; reach only relates a module to modules of
      its own or earlier SCCs).  Checked on every observed SCC list by the harness. *)
@@ -760,24 +946,48 @@ Section Packaged.
     gc_reach : forall dm L1 S L2 m d,
       sccs_of dm = L1 ++ S :: L2 -> In m S -> reach dm m d = true -> In d (concat L1 ++ S) }.
 
-  Notation CacheOK := (CacheOK content_of imports check).
-  Notation warm := (Model.warm content_of imports analyze sccs_of reach sdo_of).
-  Notation cold := (Model.cold content_of imports analyze sccs_of reach sdo_of).
-  Notation runs := (Model.runs content_of imports analyze sccs_of reach sdo_of).
+  Notation CacheOK := (CacheOK content_of imports probes check blocker).
+  Notation ProbeFresh := (ProbeFresh content_of probes ign_of).
+  Notation HistOK := (HistOK content_of imports probes analyze sccs_of reach sdo_of ign_of blocker).
+  Notation Unique := (Unique content_of check ign_of).
+  Notation warm := (Model.warm content_of imports probes analyze sccs_of reach sdo_of ign_of blocker).
+  Notation cold := (Model.cold content_of imports probes analyze sccs_of reach sdo_of ign_of blocker).
+  Notation runs := (Model.runs content_of imports probes analyze sccs_of reach sdo_of ign_of blocker).
 
   Lemma p_run_preserves_CacheOK : AnalysisContract -> GraphContract ->
-    forall c fs o now, CacheOK c -> FSOK fs -> CacheOK (snd (warm c fs o now)).
+    forall c fs o now, CacheOK c -> ProbeFresh c o fs -> FSOK fs -> CacheOK (snd (warm c fs o now)).
   Proof. intros [] []. eapply run_preserves_CacheOK; eauto. Qed.
 
   Lemma p_warm_eq_cold : AnalysisContract -> GraphContract ->
-    forall c fs o n n', CacheOK c -> FSOK fs -> output fs (warm c fs o n) = output fs (cold fs o n').
+    forall c fs o n n', CacheOK c -> ProbeFresh c o fs -> FSOK fs -> Unique fs o ->
+    output fs (warm c fs o n) = output fs (cold fs o n').
   Proof. intros [] []. eapply warm_eq_cold; eauto. Qed.
 
-  Lemma p_history : AnalysisContract -> GraphContract ->
-    Statement.warm_equals_cold_for_all_histories content_of imports analyze sccs_of reach sdo_of.
+  (* per final state: any history before it (cyclic or not, aborted runs, option changes) along which the reused
+     dependency lists stay right (HistOK); uniqueness needed for the final program only *)
+  Lemma p_history_partial : AnalysisContract -> GraphContract ->
+    forall (h : list (FS * opts)) (fs : FS) (o : opts) (n n' : nat),
+      HistOK empty_store 0 h -> ProbeFresh (runs empty_store 0 h) o fs -> FSOK fs -> Unique fs o ->
+      output fs (warm (runs empty_store 0 h) fs o n) = output fs (cold fs o n').
+  Proof. intros [] [] h fs o n n' Hh HP Hfs HU. eapply history_warm_eq_cold; eauto. apply CacheOK_empty. Qed.
+
+  (* programs without `from pkg import maybe_a_submodule`: the full statement *)
+  Lemma p_history_noprobes : AnalysisContract -> GraphContract -> (forall m c o, probes m c o = []) ->
+    (forall fs o, FSOK fs -> Unique fs o) ->
+    Statement.warm_equals_cold_for_all_histories content_of imports probes analyze sccs_of reach sdo_of ign_of blocker.
   Proof.
-    intros [] [] h fs o n n' Hh Hfs. eapply history_warm_eq_cold; eauto. apply CacheOK_empty.
+    intros AC GC NP HU h fs o n n' Hh Hfs. apply p_history_partial; auto.
+    - destruct AC, GC. eapply HistOK_noprobes; eauto.
+    - eapply ProbeFresh_noprobes; eauto.
   Qed.
+
+  Lemma p_acyclic_unique : AnalysisContract -> forall fs o rank,
+    Acyclic content_of imports probes check fs o rank -> Unique fs o.
+  Proof. intros [] fs o rank. eapply acyclic_unique; eauto. Qed.
+
+  Lemma p_level_unique : AnalysisContract -> forall fs o rank,
+    LevelUnique content_of check ign_of fs o rank -> Unique fs o.
+  Proof. intros [] fs o rank. eapply level_unique_unique; eauto. Qed.
 
   (* the same, phrased with explicit edits: start from any file system, apply any list of edits, run after each *)
   Lemma remove_mod_notin : forall m fs, ~ In m (map fst (Statement.remove_mod m fs)).
@@ -805,19 +1015,22 @@ Section Packaged.
     eapply IHes; [|eauto]. apply apply_edit_ok; auto.
   Qed.
 
-  Lemma p_edits : AnalysisContract -> GraphContract ->
+  Lemma p_edits : AnalysisContract -> GraphContract -> (forall m c o, probes m c o = []) ->
     forall (fs0 : FS) (es : list Statement.edit) (e : Statement.edit) (o : opts) n n',
       FSOK fs0 ->
       let visited := fs0 :: Statement.states fs0 es in
       let final := Statement.apply_edit (last visited fs0) e in
+      Unique final o ->
       output final (warm (runs empty_store 0 (map (fun x => (x, o)) visited)) final o n)
       = output final (cold final o n').
   Proof.
-    intros AC GC fs0 es e o n n' H0 visited final.
+    intros AC GC NP fs0 es e o n n' H0 visited final HU.
     assert (V : forall x, In x visited -> FSOK x).
     { intros x [Hx|Hx]; subst; auto. eapply states_ok; eauto. }
-    apply (p_history AC GC).
-    - intros fs' o' Hin. apply in_map_iff in Hin as [x [E Hx]]. inversion E; subst. apply V; auto.
+    apply (p_history_partial AC GC); auto.
+    - destruct AC, GC. eapply HistOK_noprobes; eauto.
+      intros fs' o' Hin. apply in_map_iff in Hin as [x [E Hx]]. inversion E; subst. apply V; auto.
+    - eapply ProbeFresh_noprobes; eauto.
     - apply apply_edit_ok. apply V. unfold visited.
       generalize (Statement.states fs0 es). generalize fs0 at 1 3. intros d l. revert d.
       induction l; simpl; intros; auto. destruct l; simpl; auto. right. apply (IHl a).
